@@ -1,1 +1,323 @@
-fn main(){}
+//! fv — falcon verification driver. `fv <id> <quick|thorough>` orchestrates worker sub-processes
+//! (`--shard i/n`), merges what they observed, writes evidence and prints verdict lines.
+mod bv;
+mod props;
+mod report;
+mod util;
+
+use report::{Acc, Tier};
+use serde_json::Value;
+use std::io::Write;
+use std::time::{Duration, Instant};
+
+pub struct Ctx {
+    pub tier: Tier,
+    pub shard: u64,
+    pub nshards: u64,
+    pub seed: i64,
+    trace: Option<std::cell::RefCell<std::fs::File>>,
+}
+impl Ctx {
+    /// Is case number `n` of an orderly enumeration handled by this worker?
+    pub fn mine(&self, n: u64) -> bool {
+        n % self.nshards == self.shard
+    }
+    /// In trace mode, log the label of the case about to run (flushed), so that an abort or hang
+    /// can be attributed to it.
+    pub fn trace(&self, label: impl FnOnce() -> String) {
+        if let Some(f) = &self.trace {
+            let mut f = f.borrow_mut();
+            let _ = writeln!(f, "{}", label());
+            let _ = f.flush();
+        }
+    }
+    pub fn tracing(&self) -> bool {
+        self.trace.is_some()
+    }
+}
+
+pub struct Prop {
+    pub id: &'static str,
+    pub describe: fn() -> report::Describe,
+    pub run: fn(&Ctx) -> Acc,
+    pub replay: fn(&Value) -> Acc,
+    /// number of worker processes for a tier
+    pub shards: fn(Tier) -> u64,
+    /// wall-clock limit per worker, seconds
+    pub timeout_s: fn(Tier) -> u64,
+    /// address-space limit per worker, bytes
+    pub mem_limit: u64,
+}
+
+fn usage() -> ! {
+    eprintln!("usage: fv <id> <quick|thorough> | fv <id> --replay <file> | fv list");
+    std::process::exit(2)
+}
+
+fn main() {
+    let args: Vec<String> = std::env::args().collect();
+    if args.len() < 2 {
+        usage()
+    }
+    if args[1] == "list" {
+        for p in props::all() {
+            println!("{}", p.id);
+        }
+        return;
+    }
+    if args[1] == "selftest" {
+        bv::selftest();
+        println!("selftest ok");
+        return;
+    }
+    let id = args[1].to_uppercase();
+    let prop = match props::all().into_iter().find(|p| p.id == id) {
+        Some(p) => p,
+        None => {
+            eprintln!("MACHINERY: unknown property {}", id);
+            std::process::exit(2)
+        }
+    };
+    let mut tier = match std::env::var("VERIF_TIER").ok().as_deref() {
+        Some("thorough") => Tier::Thorough,
+        _ => Tier::Quick,
+    };
+    let seed: i64 = std::env::var("VERIF_SEED")
+        .ok()
+        .and_then(|s| s.parse().ok())
+        .unwrap_or(0);
+    let mut shard: Option<(u64, u64)> = None;
+    let mut out: Option<String> = None;
+    let mut trace: Option<String> = None;
+    let mut replay: Option<String> = None;
+    let mut i = 2;
+    while i < args.len() {
+        match args[i].as_str() {
+            "quick" => tier = Tier::Quick,
+            "thorough" => tier = Tier::Thorough,
+            "--tier" => {
+                i += 1;
+                tier = if args.get(i).map(|s| s.as_str()) == Some("thorough") {
+                    Tier::Thorough
+                } else {
+                    Tier::Quick
+                }
+            }
+            "--shard" => {
+                i += 1;
+                let s = args.get(i).unwrap_or_else(|| usage());
+                let mut it = s.split('/');
+                shard = Some((
+                    it.next().unwrap().parse().unwrap(),
+                    it.next().unwrap().parse().unwrap(),
+                ));
+            }
+            "--out" => {
+                i += 1;
+                out = args.get(i).cloned()
+            }
+            "--trace" => {
+                i += 1;
+                trace = args.get(i).cloned()
+            }
+            "--replay" => {
+                i += 1;
+                replay = args.get(i).cloned()
+            }
+            _ => usage(),
+        }
+        i += 1;
+    }
+    util::silence_panics();
+
+    if let Some(path) = replay {
+        let body: Value = serde_json::from_str(&std::fs::read_to_string(&path).unwrap_or_else(|e| {
+            eprintln!("MACHINERY: cannot read {}: {}", path, e);
+            std::process::exit(2)
+        }))
+        .unwrap_or_else(|e| {
+            eprintln!("MACHINERY: cannot parse {}: {}", path, e);
+            std::process::exit(2)
+        });
+        let case = body.get("case").cloned().unwrap_or(body.clone());
+        let acc = (prop.replay)(&case);
+        if acc.findings.is_empty() {
+            println!("replay: no violation reproduced for {}", path);
+            std::process::exit(0)
+        }
+        for (k, f) in &acc.findings {
+            println!("  violation key={} :: {}", k, f.what);
+            println!("VIOLATION property={} replay={}", prop.id, path);
+        }
+        std::process::exit(1)
+    }
+
+    if let Some((s, n)) = shard {
+        // worker
+        util::limit_memory(prop.mem_limit);
+        let ctx = Ctx {
+            tier,
+            shard: s,
+            nshards: n,
+            seed,
+            trace: trace.map(|p| {
+                std::cell::RefCell::new(
+                    std::fs::OpenOptions::new()
+                        .create(true)
+                        .write(true)
+                        .truncate(true)
+                        .open(p)
+                        .expect("trace file"),
+                )
+            }),
+        };
+        let acc = (prop.run)(&ctx);
+        let s = serde_json::to_string(&acc).unwrap();
+        match out {
+            Some(p) => std::fs::write(p, s).expect("write worker output"),
+            None => println!("{}", s),
+        }
+        return;
+    }
+
+    // orchestrator
+    let start = Instant::now();
+    if bv::selftest_quiet().is_err() {
+        eprintln!("MACHINERY: reference bit-vector self-test failed");
+        std::process::exit(2)
+    }
+    let n = (prop.shards)(tier).max(1);
+    let timeout = Duration::from_secs((prop.timeout_s)(tier));
+    let tmp = report::verif_dir().join("target").join("tmp");
+    let _ = std::fs::create_dir_all(&tmp);
+    let exe = std::env::current_exe().expect("current_exe");
+    let spawn = |s: u64, tracefile: Option<&std::path::Path>| {
+        let outp = tmp.join(format!("{}-{}-{}.json", prop.id, std::process::id(), s));
+        let _ = std::fs::remove_file(&outp);
+        let mut c = std::process::Command::new(&exe);
+        c.arg(prop.id)
+            .arg(tier.name())
+            .arg("--shard")
+            .arg(format!("{}/{}", s, n))
+            .arg("--out")
+            .arg(&outp)
+            .env("VERIF_SEED", seed.to_string())
+            .stderr(std::process::Stdio::null());
+        if let Some(t) = tracefile {
+            c.arg("--trace").arg(t);
+        }
+        (c.spawn().expect("spawn worker"), outp)
+    };
+    let mut children: Vec<_> = (0..n).map(|s| (s, spawn(s, None))).collect();
+    let mut merged = Acc::new();
+    let mut failed: Vec<(u64, String)> = Vec::new();
+    let wait_all = |children: &mut Vec<(u64, (std::process::Child, std::path::PathBuf))>,
+                    merged: &mut Acc,
+                    failed: &mut Vec<(u64, String)>,
+                    began: Instant| {
+        let mut pending: Vec<bool> = vec![true; children.len()];
+        loop {
+            let mut any = false;
+            for (idx, (s, (ch, outp))) in children.iter_mut().enumerate() {
+                if !pending[idx] {
+                    continue;
+                }
+                match ch.try_wait() {
+                    Ok(Some(st)) => {
+                        pending[idx] = false;
+                        let ok = st.success();
+                        let body = std::fs::read_to_string(&*outp).ok();
+                        let _ = std::fs::remove_file(&*outp);
+                        match (ok, body.and_then(|b| serde_json::from_str::<Acc>(&b).ok())) {
+                            (true, Some(a)) => merged.merge(a),
+                            _ => failed.push((*s, format!("worker exit status {:?}", st))),
+                        }
+                    }
+                    Ok(None) => {
+                        any = true;
+                        if began.elapsed() > timeout {
+                            let _ = ch.kill();
+                            let _ = ch.wait();
+                            pending[idx] = false;
+                            let _ = std::fs::remove_file(&*outp);
+                            failed.push((*s, format!("worker exceeded {} s", timeout.as_secs())));
+                        }
+                    }
+                    Err(e) => {
+                        pending[idx] = false;
+                        failed.push((*s, format!("wait error {}", e)));
+                    }
+                }
+            }
+            if !any {
+                break;
+            }
+            std::thread::sleep(Duration::from_millis(20));
+        }
+    };
+    wait_all(&mut children, &mut merged, &mut failed, start);
+
+    // Attribute worker deaths / hangs to a single case by re-running those shards in trace mode.
+    let mut machinery_failure = false;
+    if !failed.is_empty() {
+        let first_failed = std::mem::take(&mut failed);
+        let began = Instant::now();
+        let mut traced: Vec<(u64, (std::process::Child, std::path::PathBuf))> = Vec::new();
+        let mut tracefiles = Vec::new();
+        for (s, why) in &first_failed {
+            let tf = tmp.join(format!("{}-{}-{}.trace", prop.id, std::process::id(), s));
+            tracefiles.push((*s, tf.clone(), why.clone()));
+            traced.push((*s, spawn(*s, Some(&tf))));
+        }
+        let mut dummy = Acc::new();
+        let mut failed2 = Vec::new();
+        wait_all(&mut traced, &mut dummy, &mut failed2, began);
+        for (s, tf, why) in tracefiles {
+            let again = failed2.iter().find(|(s2, _)| *s2 == s);
+            let label = std::fs::read_to_string(&tf)
+                .ok()
+                .and_then(|t| t.lines().last().map(|l| l.to_string()));
+            let _ = std::fs::remove_file(&tf);
+            match (again, label) {
+                (Some((_, why2)), Some(label)) => {
+                    // label format: "<key>\t<json case>" or free text
+                    let mut it = label.splitn(2, '\t');
+                    let key = it.next().unwrap_or("").to_string();
+                    let case: Value = it
+                        .next()
+                        .and_then(|c| serde_json::from_str(c).ok())
+                        .unwrap_or(Value::String(label.clone()));
+                    merged.violation(
+                        format!("{}|abort-or-hang|{}", prop.id, key),
+                        format!(
+                            "worker died or hung while executing this case ({}; first run: {})",
+                            why2, why
+                        ),
+                        case,
+                    );
+                }
+                (None, _) => {
+                    // The failure did not reproduce in trace mode: merge nothing, machinery failure.
+                    eprintln!(
+                        "MACHINERY: shard {} failed ({}) but ran clean in trace mode",
+                        s, why
+                    );
+                    machinery_failure = true;
+                }
+                (Some((_, why2)), None) => {
+                    eprintln!(
+                        "MACHINERY: shard {} failed ({}) and trace run failed ({}) without a case label",
+                        s, why, why2
+                    );
+                    machinery_failure = true;
+                }
+            }
+        }
+    }
+    if machinery_failure {
+        std::process::exit(2)
+    }
+    let d = (prop.describe)();
+    let code = report::finish(&d, tier, seed, merged, start.elapsed().as_secs_f64(), true);
+    std::process::exit(code)
+}
